@@ -67,17 +67,10 @@ CLAIMS = {
          "program-level half is carried by channel X: the Lean machine running the Lean generator's programs predicts every value of every "
          "API operation of compiled generated modules in debug and release builds.", "4 C04", X_NOTE,
          "Lean 4 theorems over translated primitives + abstract machine; correspondence with compiled generated code (3 builds)"),
- "C05": ("C05_program_order_partial (reads of removed fields, then bit copy, then stores of added fields), C05_reading_removed_keeps_others_partial, "
-         "C05_adding_keeps_carried_partial (stores apart from a carried field leave it unchanged: needs C01 on the new variant). Full statement "
-         "on `call convFn` is the goal; channel X checks every conversion form and random chains on compiled code against the machine and an "
-         "independent value tracker.", "4 C05", X_NOTE, "Lean 4 theorems (partial) + correspondence with compiled generated code"),
- "C06": ("C06_no_second_read_partial (a value read out can never be read out again: second load is a machine error) and C06_read_frame_partial; "
-         "ledger balance over operation sequences is checked on compiled code by channel X (drop multiset per call vs machine prediction, and an "
-         "independent birth/death ledger with leak detection at the end of every module).", "4 C06", X_NOTE,
+ "C05": ("C05_convert: for consecutive variants with well-formed field lists and a record satisfying the record invariant, every one of the four generated conversion functions runs on the abstract machine without error, keeps every carried-over field, gives every written added field the supplied value, returns (or destroys exactly once) the removed values, and re-establishes the invariant; C05_chain: every record reachable by any chain of constructors / conversions / writes satisfies that invariant (induction over Reach). Hypotheses (ModuleWF) are evaluated by the driver on every sampled module; channel X compares compiled code with the machine on every form and random chains.", "4 C05", X_NOTE, "Lean 4 theorems (partial) + correspondence with compiled generated code"),
+ "C06": ("C06_end_of_life (any reachable record: drop destroys exactly the droppable field values, unpack destroys nothing and returns them), C06_removed_dropped (non-returning conversions destroy exactly the removed droppable values), C06_new_then_drop / _unpack, C06_no_second_read_partial; with C05_convert this gives ledger balance along any life cycle. Channel X: drop multiset per call vs machine + independent birth/death ledger with leak detection on compiled code.", "4 C06", X_NOTE,
          "Lean 4 theorems (partial) + correspondence with drop ledger on compiled generated code"),
- "C07": ("C07_store_tolerates_misalignment and C07_loads_are_typed decided on the translated primitives; C07_aligned_access (typed loads/references "
-         "inside a repr(align(A)) record are aligned, from C02), C07_in_bounds; the hook log of every primitive access of compiled code is checked "
-         "for bounds and alignment at real addresses (stack/Box/Vec, CAP = MAX_SIZE and larger) and compared with the machine's access multiset.", "4 C07", X_NOTE,
+ "C07": ("C07_no_machine_error: on every record reachable by any sequence of constructor / conversion / write of a well-formed module with any capacity >= every field end, drop, unpack, every accessor and every conversion form run without oob / read-moved / store-over-owned / double-free; C07_store_tolerates_misalignment and C07_loads_are_typed decided on the translated primitives; C07_aligned_access, C07_in_bounds. Hook log of compiled code checked for bounds and alignment at real addresses.", "4 C07", X_NOTE,
          "Lean 4 theorems over translated primitives + access-log validation on compiled generated code"),
  "C11": ("Theorems over the generator model + modelled compiler rules, for every definition: C11_size, C11_align, C11_copy (any datum of any "
          "variant with wrong recorded size / alignment, or a may-be-uninit datum of a non-Copy type, makes `accepts` false), "
